@@ -149,10 +149,17 @@ def producers(ctx, r):
         from .. import vlog
 
         for _ in range(20):
-            p = vlog.fast_program(r, bb=0.0)
-            if not {"tie0", "tie1"} & ((set(p["outputs"]) | set(p["wires"])) - set(p["inputs"])):
+            # with blackbox instances half of the time: an input pin tied to a constant may be the only use of that constant
+            # (a netlist that leaves an input pin of an instance open is not a lint-clean argument: those are skipped)
+            p = vlog.fast_program(r, bb=r.choice([0.0, 0.5]))
+            ins_of = {t["type"]: set(t["ins"]) for t in p["bbtypes"]}
+            open_pin = any(ins_of[it["type"]] - {pn for pn, e in it["conns"] if e is not None} for it in p["items"] if it["k"] == "bb")
+            if not open_pin and not {"tie0", "tie1"} & ((set(p["outputs"]) | set(p["wires"])) - set(p["inputs"])):
                 break
-        return cg.io.verilog_to_circuit(vlog.fast_subset_text(p, r), p["name"], fast=True)
+        else:
+            p = vlog.fast_program(r, bb=0.0)
+        bbs2 = [cg.BlackBox(t["type"], t["ins"], t["outs"]) for t in p["bbtypes"]]
+        return cg.io.verilog_to_circuit(vlog.fast_subset_text(p, r), p["name"], blackboxes=bbs2, fast=True)
 
     out.append(("io.verilog_to_circuit(fast, free layout)", fast_layout))
     return out
